@@ -129,6 +129,22 @@ Theorem axfr_converges_with_glue : forall v z0 ser recs ws,
 Proof. exact XfrGlue.axfr_converges_with_glue. Qed.
 Print Assumptions axfr_converges_with_glue.
 
+Theorem axfr_style_ixfr_converges_with_glue : forall v z0 ser recs ws,
+  version_wf v -> v_rest v <> [] -> XfrGlue.axfr_response_glue v recs ->
+  v_serial v <> ser -> serial_lt (v_serial v) ser = false ->
+  chunking tIXFR recs ws ->
+  exists z' n, inbound_xfr z0 tIXFR (Some ser) false ws = (Done z', n) /\ zeq z' (zone_of v).
+Proof. exact XfrGlue.axfr_style_ixfr_converges_with_glue. Qed.
+Print Assumptions axfr_style_ixfr_converges_with_glue.
+
+(* incremental chains whose deletion / addition sections also carry out-of-zone records *)
+Theorem ixfr_converges_with_glue : forall v0 chain z0 recs ws,
+  chain_ok v0 chain -> zeq z0 (zone_of v0) -> XfrGlue.ixfr_response_glue v0 chain recs -> chunking tIXFR recs ws ->
+  exists z' n, inbound_xfr z0 tIXFR (Some (v_serial v0)) false ws = (Done z', n)
+               /\ zeq z' (zone_of (last chain v0)).
+Proof. exact XfrGlue.ixfr_converges_with_glue. Qed.
+Print Assumptions ixfr_converges_with_glue.
+
 (* UDP IXFR: the same stream in one datagram *)
 Theorem udp_ixfr : forall v0 chain z0 w,
   chain_ok v0 chain -> zeq z0 (zone_of v0) ->
